@@ -8,6 +8,48 @@ VERIF = os.path.dirname(os.path.dirname(os.path.abspath(__file__)))
 BASELINE_OFF = ("cd /repo && GOFLAGS=-mod=mod GOPROXY=off go test -json -vet=off -count=1 -timeout 25m ./...")
 
 CHECKS = {
+    "C01": dict(
+        category="model_checking",
+        text=("SimpleDB.tla (memstore pair, table list, generation, flusher, compactor with the code's selection rule, sessions with options) is "
+              "model-checked exhaustively for ReadsLikeMap over every placement of rotation/flush/compaction/restart and option set; "
+              "TLC-simulated behaviours are replayed on the real database and long seeded multi-session programs are recorded through "
+              "the verif hooks; every execution is trace-validated by TLC against SimpleDBTrace.tla (every hook event must be the enabled "
+              "specification step, every Get reply a value of the reference read, ReadsLikeMap in every state, background failures rejected)."),
+        design_ref="§5 C01",
+        note="trusts TLC, the hook placement (events emitted under the protecting lock) and the driver's projection of keys/values/paths",
+        technique="TLA+ spec + TLC exhaustive check; TLC-generated behaviours replayed; white-box trace validation by TLC",
+    ),
+    "C05": dict(
+        category="model_checking",
+        text=("SimpleDB.tla with 2 clients, two-step Get, database lock, unbuffered hand-off, flusher and compactor is model-checked over all "
+              "interleavings (GetLinearizable, NoLimboWhenUnlocked, ReadsLikeMap); real concurrent histories (4-8 goroutines, tiny memstores, "
+              "background compaction, gate delays, GOMAXPROCS 1..16) are validated white-box against SimpleDBTrace.tla and black-box, per "
+              "key, by KVLinTrace.tla where TLC searches a linearization of the recorded invocation/response pairs."),
+        design_ref="§5 C05",
+        note="schedules on the real code are sampled; exhaustive interleavings only on the model; trusts hook placement for the white-box order",
+        technique="TLA+ spec + TLC exhaustive interleavings; white-box trace validation + black-box linearizability search by TLC",
+    ),
+    "C06": dict(
+        category="model_checking",
+        text=("Lineage.tla lets TLC enumerate every lineage of 2..3 tables over two keys (absent/value/tombstone, small/big) x 27 option "
+              "sets and check that one compaction cycle of the design preserves all reads and selects a gap-free run; SimpleDB.tla checks "
+              "the same as action properties under repeated cycles; the enumerated lineages are built on the real database and each "
+              "compaction (selection recomputed from logged metadata, replacement slot, merged counts, reads before/after, later flush, "
+              "second cycle, restart) is trace-validated by TLC."),
+        design_ref="§5 C06",
+        note="real table sizes are steered by value padding; a miss lowers coverage only because the selection is re-derived from logged metadata",
+        technique="TLA+ spec + TLC exhaustive enumeration of lineages; replay on the real code; white-box trace validation by TLC",
+    ),
+    "C17": dict(
+        category="model_checking",
+        text=("SimpleDBApi.tla models the validation layer with the WAL as state (RejectedIsNoOp, RecoveryAgrees, SameVerdict) and is "
+              "model-checked over all argument classes x flavours x observation actions; TLC-generated programs are replayed through both "
+              "API flavours with non-UTF-8 / 70 KB / marker-like / empty keys, observed directly, after flush, after clean reopen and on "
+              "crash images recovered by a separate process; all judged by TLC on SimpleDBTrace.tla."),
+        design_ref="§5 C17",
+        note="crash image = directory copied while the quiescent database is open; Delete/Get with empty keys only need to agree between flavours",
+        technique="TLA+ spec + TLC exhaustive check; TLC-generated programs replayed; trace validation by TLC",
+    ),
     "C14": dict(
         category="model_checking",
         text=("MemStore.tla is model-checked exhaustively (map-with-tombstones invariants, estimate arithmetic); every TLC-enumerated call "
